@@ -1353,6 +1353,21 @@ func runC02FailedUpdateVsConnect(s *kernel.Sim) {
 		s.Probe("c02.registration_saved_before_the_failing_keepalive_knew_its_checkin")
 		return
 	}
+	// ... and not inside the two store calls with which the failed keep-alive puts its old check-in back either
+	// (read the record, write it: the same limitation)
+	lastGet, sets := -1, []int{}
+	for _, r := range trace {
+		if r.op == "GetNode" {
+			lastGet = r.seq
+		}
+		if r.op == "SetNode" {
+			sets = append(sets, r.seq)
+		}
+	}
+	if len(sets) == 2 && lastGet < sets[0] {
+		s.Probe("c02.registration_saved_between_the_read_and_the_write_of_the_restore")
+		return
+	}
 	s.Probe("c02.registration_saved_while_the_failing_keepalive_was_past_its_checkin")
 	n, err := w.Inner.GetNode(store.NodeID(client.ID))
 	if err != nil {
